@@ -12,6 +12,8 @@ pub mod chain;
 mod index;
 pub mod reader;
 pub mod types;
+#[cfg(rbp_verif)]
+pub use index::verif_read_varint;
 
 /// Small struct to hold statistics together
 struct WorkerStats {
@@ -64,10 +66,14 @@ impl BlockchainParser {
                 },
                 Err(e) => {
                     error!(target: "parser", "Error at height {}: {}", height, e);
+                    #[cfg(rbp_verif)]
+                    crate::verif::ev("exit", &format!("\"code\":1,\"at\":\"read\",\"h\":{}", height));
                     process::exit(1);
                 }
             };
             self.on_block(&block, height)?;
+            #[cfg(rbp_verif)]
+            crate::verif::ev("deliver", &format!("\"h\":{},\"hash\":\"{}\",\"ntx\":{}", height, block.header.hash, block.txs.len()));
             self.cur_height = height + 1;
         }
 
@@ -88,6 +94,8 @@ impl BlockchainParser {
         self.stats.started_at = now;
         self.stats.last_log = now;
         info!(target: "parser", "Processing blocks starting from height {} ...", height);
+        #[cfg(rbp_verif)]
+        crate::verif::ev("on_start", &format!("\"h\":{},\"max_height\":{}", height, self.chain_storage.max_height()));
         self.callback.on_start(height)?;
         trace!(target: "parser", "on_start() called");
         Ok(())
@@ -108,7 +116,11 @@ impl BlockchainParser {
         info!(target: "parser", "Done. Processed blocks up to height {} in {:.2} minutes.",
         height, (Instant::now() - self.stats.started_at).as_secs_f32() / 60.0);
 
+        #[cfg(rbp_verif)]
+        crate::verif::ev("on_complete", &format!("\"h\":{}", height));
         self.callback.on_complete(height)?;
+        #[cfg(rbp_verif)]
+        crate::verif::ev("completed", &format!("\"h\":{}", height));
         trace!(target: "parser", "on_complete() called");
         Ok(())
     }
